@@ -126,7 +126,7 @@ retry:
 
 	it.count++
 	if it.count%it.smrInterval == 0 {
-		it.Refresh()
+		it.refresh(false)
 	}
 }
 
@@ -141,13 +141,26 @@ func (it *Iterator) SetRefreshInterval(interval int) {
 	it.smrInterval = uint(interval)
 }
 
+// Refresh renews the iterator's accessor token. It is meant to be called
+// after the current item has been processed.
 func (it *Iterator) Refresh() {
+	it.refresh(true)
+}
+
+func (it *Iterator) refresh(consumed bool) {
 	if it.Valid() {
 		currBs := it.bs
 		itm := it.Get()
 		it.bs = it.s.barrier.Acquire()
-		it.Seek(itm)
+		found := it.Seek(itm)
 		it.s.barrier.Release(currBs)
+		// The item under the cursor was deleted meanwhile and the cursor now
+		// stands on its successor. If the caller had already seen the deleted
+		// item, the successor is the next item to deliver: the coming Next()
+		// must not step over it.
+		if consumed && !found {
+			it.deleted = true
+		}
 	}
 }
 
